@@ -10,6 +10,8 @@ for name in sorted(os.listdir(base)):
     if not os.path.exists(mp): continue
     if only and not any(name.startswith(o) for o in only): continue
     m=json.load(open(mp))
+    if m.get('neutralised_by_fix'):
+        rows.append((name,m['property'],'neutralised-by-fix (skipped)')); continue
     pid=m['property']
     if subprocess.call(['git','-C','/repo','apply',os.path.join(d,'patch.diff')])!=0:
         rows.append((name,pid,'PATCH-DOES-NOT-APPLY')); continue
